@@ -277,6 +277,24 @@ func (h *hist) twin(opt exh.Options) *c05x.ETwin {
 	return tw
 }
 
+// restartStep: a process restart in the middle of a history.
+func (h *hist) restartStep() *c05x.ERestartStep {
+	n := h.n
+	s := &c05x.ERestartStep{Op: "restart", Pre: dump(n), Err: "ok"}
+	func() {
+		defer func() {
+			if p := recover(); p != nil {
+				s.Panic = fmt.Sprint(p)
+			}
+		}()
+		if err := n.Restart(); err != nil {
+			s.Err = "other:" + err.Error()
+		}
+	}()
+	s.Post, s.TipAfter = dump(n), tipObs(n)
+	return s
+}
+
 func restart(n *exh.Node) *c05x.ERestart {
 	o := &c05x.ERestart{DBTip: c05x.DBTip(dump(n))}
 	func() {
@@ -337,6 +355,10 @@ func runHist(seed, idx uint64, gt uint32) *c05x.EHist {
 			wantDelete = r.Intn(100) < 80
 		}
 		if i >= 0 && wantDelete && tip.Header.Height > 0 && int64(tip.Header.Height) > f {
+			if r.Intn(4) == 0 {
+				rec.Steps = append(rec.Steps, h.restartStep())
+				tip = n.Tip()
+			}
 			d := h.del(tip, r.Bool(), false)
 			rec.Steps = append(rec.Steps, d)
 			afterDelete = d.Err == "ok" && h.lastDel != nil && c05x.Hex(h.lastDel.b.Header.ID) == d.ID
@@ -361,6 +383,26 @@ func runHist(seed, idx uint64, gt uint32) *c05x.EHist {
 	if idx == 0 {
 		// scripted tail of the first history (so that the check's count floors are met by construction): two tip deletes, each
 		// followed by a sibling; the tip is above the finalized height after the applies, so the twin probe runs as well
+		// restart, then delete every block above the finalized height (at most 3): the blocks below the tip were loaded by
+		// PrepareCache; then grow again
+		for j := 0; j < 3; j++ { // three blocks WITH transactions (and assets when the generator gives some)
+			var x blk
+			for k := 0; k < 12; k++ {
+				if x = h.build(false, nil); len(x.b.Transactions) > 0 {
+					break
+				}
+			}
+			rec.Steps = append(rec.Steps, h.apply(x, false, false))
+		}
+		rec.Steps = append(rec.Steps, h.restartStep())
+		for j := 0; j < 3; j++ {
+			if tip, f := n.Tip(), fh(n); tip != nil && int64(tip.Header.Height) > f && tip.Header.Height > 0 {
+				rec.Steps = append(rec.Steps, h.del(tip, j != 1, false))
+			}
+		}
+		for j := 0; j < 3; j++ {
+			rec.Steps = append(rec.Steps, h.apply(h.build(true, nil), false, false))
+		}
 		for j := 0; j < 2; j++ {
 			if tip, f := n.Tip(), fh(n); tip != nil && int64(tip.Header.Height) > f {
 				rec.Steps = append(rec.Steps, h.del(tip, j == 0, false))
